@@ -184,6 +184,7 @@ func (eb *ExposureBias) UnmarshalText(text []byte) (err error) {
 		return
 	}
 	if text[0] == '0' {
+		*eb = 0
 		return
 	}
 	for i := 0; i < len(text); i++ {
